@@ -14,8 +14,10 @@ Lines (tab separated; integers decimal, Dec values raw 10^-18 integers; lists `,
   pkeep.dep     app pool owner x y bx by outcome reqid     MsgDeposit (bx, by: wallet before)
   pkeep.wdr     app pool owner pc bpc outcome reqid        MsgWithdraw
   pkeep.eb      app height fee orders mid=… deps=… wdrs=… post=… wal=… esc=… mod=…       the real EndBlocker
-        mid  = pool:rx:ry:ps:disabled      state the requests started from (ps, disabled: before the EndBlocker;
-                                           rx, ry: after the matching = post − Σaccepted + Σwithdrawn of the records)
+        mid  = pool:rx:ry:ps:disabled:m    state the requests started from (ps, disabled: before the EndBlocker;
+                                           rx, ry: after the matching = post − Σaccepted + Σwithdrawn of the records;
+                                           m = 1: the pair has orders or several active pools, the matching may have
+                                           moved the reserves; m = 0: rx, ry must be the reserves before the EndBlocker)
         deps = pool:id:owner:x:y:status:ax:ay:mint   pending before, in store order, with the record afterwards
         wdrs = pool:id:owner:pc:status:wx:wy
         post = pool:rx:ry:ps:disabled      after the EndBlocker
@@ -79,11 +81,15 @@ structure PSnap where
   ry : Int
   ps : Int
   disabled : Bool
+  matched : Bool := false    -- `mid` only: the matching may have moved this pool's reserves (orders / sibling pools)
 
 def parseSnap (s : String) : Option PSnap :=
   match s.splitOn ":" with
   | [p, rx, ry, ps, d] => do
     pure { pool := (← parseNat? p), rx := (← parseInt? rx), ry := (← parseInt? ry), ps := (← parseInt? ps), disabled := (← parseBool? d) }
+  | [p, rx, ry, ps, d, m] => do
+    pure { pool := (← parseNat? p), rx := (← parseInt? rx), ry := (← parseInt? ry), ps := (← parseInt? ps), disabled := (← parseBool? d),
+           matched := (← parseBool? m) }
   | _ => none
 
 def parseSnaps (s : String) : Option (List PSnap) := (splitList s).mapM parseSnap
@@ -275,7 +281,7 @@ def comparePost (seq what : String) (pools : List KPool) (post : List PSnap) : L
   let m := showSnaps (pools.filter fun p => post.any (fun s => s.pool = p.id))
   diff seq what m (showPSnaps post)
 
-def handleEb (st : St) (seq : String) (app height : Nat) (feeReal : Int) (orders : Bool) (fs : List String) :
+def handleEb (st : St) (seq : String) (app height : Nat) (feeReal : Int) (_orders : Bool) (fs : List String) :
     St × List String :=
   let a := getApp st app
   match (kv fs "mid" >>= parseSnaps), (kv fs "deps" >>= fun s => (splitList s).mapM parseDepRec),
@@ -296,7 +302,7 @@ def handleEb (st : St) (seq : String) (app height : Nat) (feeReal : Int) (orders
         | none => out := out ++ [s!"BAD\t{seq}\tunknown pool {s.pool}"]
         | some p =>
           out := out ++ diff seq s!"pool {s.pool} before the batch (ps, disabled)" s!"{p.ps}:{b2s p.disabled}" s!"{s.ps}:{b2s s.disabled}"
-          if !orders then
+          if !s.matched then
             out := out ++ mon seq "keeper_batch_reserves_consistent" (decide (p.rx = s.rx ∧ p.ry = s.ry))
       let pools0 := adoptSnaps a.pools mid
       let executes := height % a.batch = 0
